@@ -12,11 +12,14 @@ HIST = lambda name, q, t, args=None: {'name': name, 'cmd': 'hist', 'quick': q, '
 
 PROPS = {
     'C01': {
-        'streams': [HIST('hist', 120, 1500), HIST('hist_index', 80, 1000, ['--focus', 'index'])],
+        'streams': [HIST('hist', 120, 1500), HIST('hist_index', 80, 1000, ['--focus', 'index']),
+                    {'name': 'scale', 'quick': 1, 'thorough': 2, 'args': ['--backend', 'all']},
+                    {'name': 'c10', 'quick': 15, 'thorough': 200}, {'name': 'c16', 'quick': 150, 'thorough': 2000}],
         'assumptions': ['values in the supported domain, no NaN; names without ";"; canonical 36-character ids; Like patterns restricted to the modelled regexp sub-language in runs; for planner soundness: one numeric regime (integers beyond 2^53 not mixed with floats)'],
     },
     'C02': {
-        'streams': [{'name': 'twin', 'quick': 8, 'thorough': 80, 'args': ['--backend', 'all']}, HIST('hist_index', 60, 800, ['--focus', 'index'])],
+        'streams': [{'name': 'twin', 'quick': 8, 'thorough': 80, 'args': ['--backend', 'all']}, HIST('hist_index', 60, 800, ['--focus', 'index']),
+                    {'name': 'c10', 'quick': 15, 'thorough': 200}],
         'assumptions': ['indexed values inside key_dom (numbers within 2^53, times 1970..2262): outside it index keys do not sort like compare (known finding K-float-key, C10_key_order_outside_dom_refuted)',
                         'for an unsorted skip/limit window the property promises a count, not an identity (C08): twins are compared on counts there'],
     },
@@ -31,7 +34,8 @@ PROPS = {
     },
     'C05': {
         'streams': [{'name': 'crash', 'quick': 3, 'thorough': 20},
-                    {'name': 'fault', 'quick': 1, 'thorough': 6, 'args': ['--backend', 'all']},
+                    {'name': 'fault', 'quick': 3, 'thorough': 10, 'args': ['--backend', 'all']},
+                    {'name': 'scale', 'quick': 1, 'thorough': 2, 'args': ['--backend', 'bbolt,badgerdisk']},
                     {'name': 'hist_reopen', 'cmd': 'hist', 'quick': 30, 'thorough': 300, 'args': ['--backend', 'bbolt,badgerdisk', '--focus', 'reopen']}],
         'assumptions': ['the store commit itself is atomic and durable (bbolt meta-page swap + fsync, badger WAL): premise, not provable here; fsync, power loss and torn pages are outside the model and outside what a process kill exercises'],
     },
